@@ -250,11 +250,41 @@ func (r Rect) CapBound() Cap {
 	if math.Remainder(r.Lng.Hi-r.Lng.Lo, 2*math.Pi) >= 0 && r.Lng.Hi-r.Lng.Lo < 2*math.Pi {
 		midCap := CapFromPoint(PointFromLatLng(r.Center())).AddPoint(PointFromLatLng(r.Lo())).AddPoint(PointFromLatLng(r.Hi()))
 		if midCap.Height() < poleCap.Height() {
-			return midCap
+			return padCapBound(midCap, rectCapBoundSlack)
 		}
 	}
-	return poleCap
+	return padCapBound(poleCap, rectCapBoundSlack)
 }
+
+// padCapBound grows a bounding cap that has been constructed from computed
+// points so that it is conservative in spite of rounding. Two kinds of error
+// must be covered.
+//
+// Errors that are absolute, i.e. not proportional to the cap size, because the
+// points the cap was built from (and the points that will be tested against
+// it) are only accurate to some multiple of dblEpsilon: the cap angle is
+// increased by slack * dblEpsilon radians.
+//
+// Errors relative to the squared chord length that represents the radius: the
+// conversion from an angle (MaxAngleError) and the distance computed by
+// Cap.ContainsPoint (MaxPointError). These dominate for caps that are nearly
+// the whole sphere, where one ulp of the squared chord length corresponds to
+// an angle much larger than dblEpsilon.
+func padCapBound(c Cap, slack float64) Cap {
+	c = c.Expanded(s1.Angle(slack * dblEpsilon))
+	c.radius = c.radius.Expanded(c.radius.MaxAngleError() + c.radius.MaxPointError())
+	return c
+}
+
+// rectCapBoundSlack is the absolute padding (in units of dblEpsilon radians)
+// that Rect.CapBound applies, so that the cap contains every Point whose
+// *computed* LatLng lies in the rectangle (this is how Loop, Polygon and
+// Polyline use it): the latitude and longitude of a point are each computed
+// to within about dblEpsilon, PointFromLatLng is accurate to 1.5 * dblEpsilon
+// for each of the points the cap is built from, and the distance computations
+// (here and in Cap.ContainsPoint) add about 2.5 * dblEpsilon each for caps up
+// to a hemisphere.
+const rectCapBoundSlack = 12
 
 // RectBound returns itself.
 func (r Rect) RectBound() Rect {
